@@ -823,6 +823,54 @@ def gen_formulas(trees, rec_tree):
                         return got
             raise Untranslatable(f"assignment to {target} under `if … {marker} …` not found")
         return sel
+    def branch_range(marker, first, last, orelse=False):
+        """inside the top-level `if` whose test mentions `marker` (its `else` branch when `orelse`): the statements from the
+        one writing `first` to the one writing `last`"""
+        def tgt(st):
+            if isinstance(st, ast.Assign) and len(st.targets) == 1:
+                return Pointwise.name_of(None, st.targets[0])
+            if isinstance(st, ast.Expr) and isinstance(st.value, ast.Call):
+                for k in st.value.keywords:
+                    if k.arg == "out":
+                        return Pointwise.name_of(None, k.value)
+            return None
+
+        def sel(fn):
+            for st in fn.body:
+                if isinstance(st, ast.If) and marker in ast.unparse(st.test):
+                    body = st.orelse if orelse else st.body
+                    names = [tgt(x) for x in body]
+                    if first in names and last in names:
+                        i0 = names.index(first)
+                        i1 = len(names) - 1 - names[::-1].index(last)
+                        if i0 <= i1:
+                            return body[i0:i1 + 1]
+            raise Untranslatable(f"statements {first} .. {last} under `if … {marker} …` not found")
+        return sel
+    orders_fn = find_func(base, "calc_orders")
+    def aug_of(target):
+        def sel(fn):
+            got = [st for st in fn.body if isinstance(st, ast.AugAssign) and Pointwise.name_of(None, st.target) == target]
+            if len(got) == 1:
+                return got
+            raise Untranslatable(f"single augmented assignment to {target} not found")
+        return sel
+    parts.append(lean_formula(
+        "need_cell", orders_fn, "`calc_orders`: one (input, industry) cell of the need = inventory gap + input used by realised production.",
+        fixed_params=["matrix_stock_gap", "production", "tech_mat"], body=aug_of("matrix_stock_gap"), result="matrix_stock_gap"))
+    parts.append(lean_formula(
+        "z_prod_cell", orders_fn, "`calc_orders`, alt branch: one cell of `Z_prod` (initial flow weighted by the supplier's relative capacity).",
+        fixed_params=["production_cap", "X_0", "Z_0"], body=branch_range("order_type", "prod_ratio", "Z_prod"), result="Z_prod"))
+    parts.append(lean_formula(
+        "alt_share_cell", orders_fn, "`calc_orders`, alt branch: one cell of the supplier shares `out` (`Z_Cprod` is the sum of `Z_prod` "
+        "over the regions supplying the same input).",
+        fixed_params=["Z_prod", "Z_Cprod"], body=branch_range("order_type", "out", "out"), result="out"))
+    parts.append(lean_formula(
+        "alt_order_cell", orders_fn, "`calc_orders`, alt branch: one cell of the orders.",
+        fixed_params=["matrix_stock_gap", "out"], body=branch_range("order_type", "tmp", "tmp"), result="tmp"))
+    parts.append(lean_formula(
+        "noalt_order_cell", orders_fn, "`calc_orders`, noalt branch: one cell of the orders.",
+        fixed_params=["matrix_stock_gap", "Z_distrib"], body=branch_range("order_type", "tmp", "tmp", orelse=True), result="tmp"))
     parts.append(lean_formula(
         "stock_update_cell", dist, "`distribute_production`, one (input, industry) cell of the inventory update "
         "(made unless `np.allclose(stock_add, stock_use)`).",
